@@ -162,6 +162,49 @@ def dim (st : State) : List (Nat × List Int) → State × Option Nat
     | (st', some e) => (st', some e)
     | (st', none) => dim st' rest
 
+/-! ### statements with several array references (Memory.let_, Memory.swap_) -/
+
+/-- the array elements read by a right-hand side, in evaluation (textual) order; the value is their
+    sum; every read goes through `Arrays.get` (so it may auto-dimension, or raise) -/
+def evalSrcs (st : State) : List (Nat × List Int) → State × R Int
+  | [] => (st, .ok 0)
+  | (n, idx) :: rest =>
+    match get st n idx with
+    | (st', .error e) => (st', .error e)
+    | (st', .ok v) =>
+      match evalSrcs st' rest with
+      | (st'', .error e) => (st'', .error e)
+      | (st'', .ok w) => (st'', .ok (v + w))
+
+/-- `Memory.let_` with an array element on the left: `name, indices = next(args)`, `_preallocate`
+    (= `check_dim` on the LEFT-hand side, before anything of the right-hand side is evaluated),
+    `value = next(args)` (the right-hand side: the reads `srcs`, a constant `c`, and possibly an
+    error `fail` raised after the reads — Type mismatch, Overflow on conversion), `arrays.set`. -/
+def letFrom (st : State) (n : Nat) (idx : List Int) (srcs : List (Nat × List Int)) (c : Int)
+    (fail : Option Nat) : State × Option Nat :=
+  match checkDim st n idx with
+  | (st1, .error e) => (st1, some e)
+  | (st1, .ok _) =>
+    match evalSrcs st1 srcs with
+    | (st2, .error e) => (st2, some e)
+    | (st2, .ok v) =>
+      match fail with
+      | some e => (st2, some e)
+      | none => set st2 n idx (v + c)
+
+/-- `Memory.swap_` on two array elements of the same type: `_view_buffer` of the first, then of the
+    second (each through `check_dim`), then the contents are exchanged -/
+def swap (st : State) (n : Nat) (idx : List Int) (m : Nat) (idx2 : List Int) : State × Option Nat :=
+  match checkDim st n idx with
+  | (st1, .error e) => (st1, some e)
+  | (st1, .ok _) =>
+    match checkDim st1 m idx2 with
+    | (st2, .error e) => (st2, some e)
+    | (st2, .ok _) =>
+      match (get st2 n idx).2, (get st2 m idx2).2 with
+      | .ok va, .ok vb => set (set st2 n idx vb).1 m idx2 va
+      | _, _ => (st2, some E.internal_error)
+
 /-! ### histories -/
 
 inductive Op where
